@@ -99,7 +99,7 @@ impl B {
     }
 }
 
-pub const ALL_PROPS: &[&str] = &["C01", "C02", "C03", "C04", "C05", "C06", "C07", "C08", "C09", "C10", "C15", "C17", "C18", "C20"];
+pub const ALL_PROPS: &[&str] = &["C01", "C02", "C03", "C04", "C05", "C06", "C07", "C08", "C09", "C10", "C14", "C15", "C17", "C18", "C20"];
 
 /// class for the output-elision differential (C04): extended class plus the eliding forms
 fn k04() -> en::Class {
@@ -289,6 +289,10 @@ pub fn units(prop: &str, tier: Tier) -> Option<Vec<Unit>> {
             }
             v
         }
+        "C14" => eng_text::units(tier)
+            .into_iter()
+            .map(|u| Unit::Custom { name: u.name.clone(), run: Box::new(move |cx| eng_text::run_unit(&u, cx)) })
+            .collect(),
         "C15" => {
             let alarm = ACC | VAL | CXO;
             vec![class("kctx", &en::k_ctx(), pick(4, 4)).len(pick(4, 5)).cfg(CfgId::RichCx).probes(CTX).alarm(alarm).unit()]
